@@ -56,7 +56,19 @@ int c04_type_ok(int cls)
     spif_class_t k = cls_of(cls);
     return t == (const void *) k || t == (const void *) k->classname;
 }
-int c04_insert(int cls, const char *w) { spif_obj_t o = word(w); int r = SPIF_VECTOR_INSERT(V[cls][0], o); if (!r) SPIF_OBJ_DEL(o); return r; }
+/* the inserted object comes from an expression with a side effect, as in INSERT(v, next_record()): it must be evaluated exactly once */
+static int mk_calls;
+static spif_obj_t mk_last;
+static spif_obj_t mk_once(const char *w) { mk_calls++; return mk_last = word(w); }
+int c04_insert(int cls, const char *w)
+{
+    int r;
+    mk_calls = 0;
+    r = SPIF_VECTOR_INSERT(V[cls][0], mk_once(w));
+    if (mk_calls != 1) return -7;      /* the interface macro evaluated its argument more than once (or not at all) */
+    if (!r) SPIF_OBJ_DEL(mk_last);
+    return r;
+}
 const char *c04_remove(int cls, const char *w)
 {
     spif_obj_t probe = word(w), r = SPIF_VECTOR_REMOVE(V[cls][0], probe);
